@@ -10,6 +10,8 @@
      _write_value_loop        `get()` ; `_writing = True` ; `await write_value(v)` ; resolve the future ;
                               `_writing = False` ; `await main.update()`       -> WriteTake / WriteStart / WriteEnd / LoopResume
      load_from_data           direct `await self.write_value(v)` for a persisted writable port -> DirectStart / DirectEnd
+     cancellation             of a task that waits in the read guard (an aborted reset/restore request) -> ReadCancel
+     transform_and_write_value / patch_port_value   what the submitter is finally told           -> Told / ApiTold
 
    One event per suspension point (that is where asyncio can interleave other tasks).  [step] returns [None] for a
    transition the code cannot take.  [guarded = true] is the code with fixes/C14-load-write-lock.diff (the direct write of
@@ -34,7 +36,11 @@ Inductive event :=
 | Deliver (t : nat) (r : tres)                      (* the submitter's `await done` returned / raised *)
 | DirectStart (v : Z)                               (* driver write_value entered from load_from_data *)
 | DirectEnd (r : wres)
-| Snap (rd wr : bool) (qlen : nat).                 (* observation of _reading, _writing, qsize() at a quiescent point *)
+| Snap (rd wr : bool) (qlen : nat)                  (* observation of _reading, _writing, qsize() at a quiescent point *)
+| ReadCancel (c : src)                              (* a caller is cancelled while it WAITS in the guard (before the driver call) *)
+| Told (t : nat) (r : tres)                         (* transform_and_write_value returned / raised: what the API function, the
+                                                       eval loop or the sequence step that submitted ticket t gets back *)
+| ApiTold (t : nat) (ok : bool).                    (* patch_port_value answered 204/202 (true) or an error (false) *)
 
 Inductive wloop := WIdle | WTaken (v : Z) (t : nat) | WDriver (v : Z) (t : nat) | WUpdating.
 
@@ -148,6 +154,19 @@ Definition step_gen (guarded : bool) (cap : nat) (s : pstate) (e : event) : opti
   | Snap rd wr qlen =>
       if Bool.eqb rd (is_some (reading s)) && Bool.eqb wr (flag_writing (wl s)) && (qlen =? List.length (write_q s))
       then Some s else None
+  | ReadCancel SrcPass => if wait_pass s then Some (set_wait_pass s false) else None     (* the holder is untouched *)
+  | ReadCancel SrcLoad => match wait_load s with 0 => None | S n => Some (set_wait_load s n) end
+  | Told t r =>
+      if memb t (delivered s)
+      then match lookup t (results s) with Some r' => if tres_eqb r r' then Some s else None | None => None end
+      else None
+  | ApiTold t ok =>
+      if memb t (delivered s)
+      then match lookup t (results s) with
+           | Some r' => if Bool.eqb ok (tres_eqb r' TOk) then Some s else None
+           | None => None
+           end
+      else None
   end.
 
 Definition step := step_gen true.
